@@ -2118,13 +2118,39 @@ def gen_lean(ctx):
     assert thms is not None, "untranslatable: norm_thms not found"
     assert isinstance(flag, bool), "untranslatable: check_z3 is not a literal bool"
     items = ", ".join('("%s", %s)' % (n, "true" if b else "false") for n, b in thms)
-    return ("/- GENERATED by harness/props/c06.py from prover/z3wrapper.py (`norm_thms`); do not edit. -/\n"
+    # the statements of these library theorems (first definition found in library/*.json, as stored)
+    import glob
+    props = {}
+    for fn in sorted(glob.glob(os.path.join(ctx.repo, "library", "*.json"))):
+        try:
+            with open(fn, encoding="utf-8") as f:
+                data = json.load(f)
+        except Exception:  # noqa
+            continue
+        for it in data.get("content", []):
+            nm = it.get("name")
+            if it.get("ty") in ("thm", "thm.ax") and nm in dict(thms) and nm not in props:
+                pr = it.get("prop")
+                props[nm] = "".join(pr) if isinstance(pr, list) else str(pr)
+            elif str(it.get("ty", "")).startswith("def") and nm is not None and it.get("prop"):
+                # a definition `c` gives the theorem `c_def`; for an overloaded constant at type T: `T_c_def`
+                for cand in (nm + "_def", "%s_%s_def" % (str(it.get("type", "")).split(" ")[0], nm)):
+                    if cand in dict(thms) and cand not in props:
+                        pr = it.get("prop")
+                        props[cand] = "".join(pr) if isinstance(pr, list) else str(pr)
+    missing = [n for n, _ in thms if n not in props]
+    assert not missing, "untranslatable: statements of %s not found in library/*.json" % missing
+    esc = lambda x: x.replace("\\", "\\\\").replace('"', '\\"')
+    pitems = ",\n  ".join('("%s", "%s")' % (n, esc(props[n])) for n, _ in thms)
+    return ("/- GENERATED by harness/props/c06.py from prover/z3wrapper.py (`norm_thms`) and library/*.json; do not edit. -/\n"
             "namespace Holpy.C06.Gen\n\n"
             "/-- (theorem name, used right-to-left) in the order `norm_term` applies them -/\n"
             "def normThms : List (String × Bool) := [%s]\n\n"
+            "/-- the statements of these theorems in the library -/\n"
+            "def normThmProps : List (String × String) := [\n  %s]\n\n"
             "/-- `check_z3 = True` at module level -/\n"
             "def checkZ3Default : Bool := %s\n\n"
-            "end Holpy.C06.Gen\n" % (items, "true" if flag else "false"))
+            "end Holpy.C06.Gen\n" % (items, pitems, "true" if flag else "false"))
 
 
 def load_corpus(ctx):
